@@ -77,11 +77,11 @@ public:
                 i += k + 2; continue;
             }
             Op o; o.kind = (int)r.weighted(weights); o.inst = (int)r.below(4);
-            if(dense && r.chance(0.7)) o.kind = (int)r.pick<int>({ A_NOTE_ON, A_NOTE_ON, A_NOTE_ON, A_NOTE_ON, A_NOTE_OFF, A_SET_NUM_CHIPS, A_SET_NUM_CHIPS, A_GENERATE, A_TICK_EVENTS, A_RESET, A_SWITCH_EMULATOR, A_CONTROLLER, A_SET_CHIP_TYPE, A_PANIC });
+            if(dense && r.chance(0.7)) o.kind = (int)r.pick<int>({ A_NOTE_ON, A_NOTE_ON, A_NOTE_ON, A_NOTE_ON, A_NOTE_OFF, A_NOTE_OFF, A_SET_NUM_CHIPS, A_SET_NUM_CHIPS, A_GENERATE, A_GENERATE, A_TICK_EVENTS, A_RESET, A_SWITCH_EMULATOR, A_CONTROLLER, A_CONTROLLER, A_SET_CHIP_TYPE, A_PANIC, A_SET_AUTO_ARP });
             switch(o.kind)
             {
             case A_INIT: o.a[0] = clsRate(r); break;
-            case A_SET_DEVICE_ID: o.a[0] = r.chance(0.5) ? (int64_t)r.below(17) : clsInt(r); break;
+            case A_SET_DEVICE_ID: o.a[0] = r.chance(0.3) ? (int64_t)r.pick<int>({ 0, 7, 7, 15 }) : (r.chance(0.6) ? (int64_t)r.below(17) : clsInt(r)); break;   // 7: the low nibble of the F7 terminator
             case A_SET_NUM_CHIPS:
                 o.a[0] = r.chance(0.6) ? (int64_t)r.range(1, 8) : clsInt(r);
                 if(o.a[0] >= 1 && o.a[0] <= 100) { cm.chips = (int)o.a[0]; if(cm.emu == 7 && cm.chips > 2) cm.chips = 2; }
@@ -147,7 +147,9 @@ public:
                 if(o.kind == A_NOTE_ON || o.kind == A_NOTE_OFF) { o.inst = 0; o.a[0] = (int64_t)r.pick<int>({ 0, 1, 9, 9 }); o.a[1] = (int64_t)r.range(36, 47); if(o.kind == A_NOTE_ON) o.a[2] = (int64_t)r.range(1, 127); }
                 if(o.kind == A_SET_NUM_CHIPS) { o.inst = 0; o.a[0] = (int64_t)r.range(1, 5); cm.chips = (int)o.a[0]; if(cm.emu == 7 && cm.chips > 2) cm.chips = 2; }
                 if(o.kind == A_GENERATE) { o.inst = 0; o.a[0] = (int64_t)r.pick<int>({ 2, 64, 256, 512 }); }
-                if(o.kind == A_TICK_EVENTS) { o.inst = 0; o.d = r.pick<double>({ 0.0, 0.001, 0.01, 0.02, 0.04 }); }
+                if(o.kind == A_TICK_EVENTS) { o.inst = 0; o.d = r.pick<double>({ 0.0, 0.001, 0.01, 0.02, 0.04, 0.5 }); }
+                if(o.kind == A_CONTROLLER) { o.inst = 0; o.a[0] = (int64_t)r.pick<int>({ 0, 1, 9 }); o.a[1] = (int64_t)r.pick<int>({ 64, 64, 66, 123, 121 }); o.a[2] = (int64_t)r.pick<int>({ 0, 127 }); }   // pedals down/up around re-struck keys
+                if(o.kind == A_SET_AUTO_ARP) { o.inst = 0; o.a[0] = 1; }
             }
             p.ops.push_back(o);
         }
